@@ -211,6 +211,9 @@ func (r *c18Run) runTwice(cases []*c18Case) {
 				r.check(cs, n1 != n2, c18Diff{sig: sig("compare", cs.Entry, cs.Cell, "path-does-not-differ"),
 					observed: fmt.Sprintf("(bag-compare edited untouched) => %s where both hold %s", slip.ObjectString(co.Value), n1), expected: "a path to a difference", from: "impl:compare-vs-trees"})
 				r.c.Ev.Hist("compare_result", "path")
+				if n1 != n2 {
+					r.checkCompareIgnores(cs, b1, b2, cp, len(cs.Doc)+len(cs.Entry)+len(cs.Layout)+cs.Via+len(cp), cs.Entry, cs.Cell)
+				}
 			} else {
 				r.c.Ev.Hist("compare_result", "nil-for-different-bags")
 			}
